@@ -5,7 +5,9 @@ proofs : Properties_C17.v (counts, i-th info entry = variable with index i, buff
          the regenerated profile table), every declared function defined exactly once with the same signature for every
          (model type, externals) combination, invalid => both strings empty)
 tie    : valid models (the C03 random model set + one model per helper-requiring operator x placement x model kind,
-         with and without external variables) -> harness/c17_driver.cpp (Parser -> Analyser -> Generator, both
+         with and without external variables + the buffer matrix: model type x {name, units, component} x class of variable
+         that carries the strictly longest string + three NLA systems in every order with every subset of one system's
+         unknowns externalised, so that NLA system indices have gaps) -> harness/c17_driver.cpp (Parser -> Analyser -> Generator, both
          profiles, every AnalyserModel accessor dumped) ; the extracted model (ocaml/emit/driver.ml over EmitDefs.v)
          is given the accessor dump and the model's MathML and predicts the whole interface text, the implementation
          text up to the method bodies, the method frames, the info tables, the buffer sizes, the need-flags and the
@@ -688,6 +690,27 @@ def judge(model, info, pred, files, run_c, run_py):
     exp_nla = sorted({e["nla"] for e in info["equations"] if e["type"] == "nla"})
     if nobj != exp_nla or nfind != exp_nla:
         P.append(("oracle", "C: objectiveFunction %s / findRoot %s, the model's NLA systems are %s" % (nobj, nfind, exp_nla)))
+    # call sites <-> definitions of the NLA functions, both profiles: every called function is defined exactly once, every
+    # defined findRoot is called, findRoot<i> hands objectiveFunction<i> to the solver
+    for lang, text, def_find, def_obj, call_find, use_obj, block in (
+            ("C", c, r"^void findRoot(\d+)\(", r"^void objectiveFunction(\d+)\(", r"^\s+findRoot(\d+)\(", r"nlaSolve\(objectiveFunction(\d+),",
+             r"^void findRoot(\d+)\([^\n]*\n\{\n(.*?)^\}$"),
+            ("Py", py, r"^def find_root_(\d+)\(", r"^def objective_function_(\d+)\(", r"^\s+find_root_(\d+)\(", r"nla_solve\(objective_function_(\d+),",
+             r"^def find_root_(\d+)\([^\n]*\n(.*?)(?=^\S|\Z)")):
+        dfind = [int(x) for x in re.findall(def_find, text, flags=re.M)]
+        dobj = [int(x) for x in re.findall(def_obj, text, flags=re.M)]
+        cfind = sorted({int(x) for x in re.findall(call_find, text, flags=re.M)})
+        uobj = sorted({int(x) for x in re.findall(use_obj, text)})
+        if sorted(dfind) != exp_nla or sorted(dobj) != exp_nla:
+            P.append(("oracle", "%s: findRoot %s / objectiveFunction %s defined, the model's NLA systems (nlaSystemIndex) are %s" % (lang, sorted(dfind), sorted(dobj), exp_nla)))
+        if cfind != sorted(set(dfind)):
+            P.append(("oracle", "%s: findRoot called for systems %s, defined for %s" % (lang, cfind, sorted(dfind))))
+        if uobj != sorted(set(dobj)):
+            P.append(("oracle", "%s: objectiveFunction handed to the solver for systems %s, defined for %s" % (lang, uobj, sorted(dobj))))
+        for i, body in re.findall(block, text, flags=re.M | re.S):
+            inner = re.findall(use_obj, body)
+            if inner != [i]:
+                P.append(("oracle", "%s: findRoot%s hands objectiveFunction%s to the solver" % (lang, i, inner)))
     if sorted(i for i, _ in pred["nla"]) != exp_nla:
         P.append(("tie", "NLA systems: model %s, accessors %s" % (pred["nla"], exp_nla)))
     if bool(exp_nla) != nla:
@@ -932,6 +955,7 @@ def run(ctx):
         models.append({"name": "r%04d" % i, "xml": g["xml"], "externals": ext, "meta": {"family": "random", "seed": g["seed"],
                                                                                         "components": g["meta"].get("components"), "nla": g["meta"].get("nla")}})
     models += M.extra_models(ctx.rng, n_extra)
+    models += M.buffer_models() + M.nla_elimination_models()
     expected_findings = {}
     for fm in M.finding_models():
         expected_findings[fm["name"]] = fm["meta"]["expect"]
@@ -939,7 +963,8 @@ def run(ctx):
     results = process(drv, mdl, models, workdir, "valid")
     hist = {"models": len(models), "ok": 0, "rejected": 0, "crashed": 0, "types": {}, "externals": {"with": 0, "without": 0},
             "combos_ode_ext": {}, "helpers_needed": {}, "placements": {}, "kinds": {}, "info_entries": {}, "nla_systems": 0,
-            "flags_kept_for_externalised_equations": 0, "c03_shapes_skipped": 0, "known_findings": {}, "families": {}, "violations": 0, "generator_failures": len(gen_failed),
+            "flags_kept_for_externalised_equations": 0, "c03_shapes_skipped": 0, "known_findings": {}, "families": {}, "buffer_matrix": {}, "nla_multi_system_models": 0,
+            "nla_index_gap_models": 0, "nla_elimination_indices": {}, "violations": 0, "generator_failures": len(gen_failed),
             "rejected_samples": []}
     distinct, nontrivial = set(), set()
     nviol = 0
@@ -989,6 +1014,22 @@ def run(ctx):
         hist["nla_systems"] += len({e["nla"] for e in info["equations"] if e["type"] == "nla"})
         if r.get("pred") and ext and r["pred"]["astflags"] != info["need"]:
             hist["flags_kept_for_externalised_equations"] += 1
+        # buffer matrix: which class of variable carries the STRICTLY longest string of each field (measured on the dump)
+        carriers = ([("voi", info["voi"])] + [("state", x) for x in info["states"]] if ode else []) + [(x["type"], x) for x in info["variables"]]
+        for field in ("name", "units", "component"):
+            longest = max(len(x[field]) for _, x in carriers)
+            classes = {cl for cl, x in carriers if len(x[field]) == longest}
+            if len(classes) == 1:
+                cell = "%s/%s/%s" % (info["type"], field, classes.pop())
+                hist["buffer_matrix"][cell] = hist["buffer_matrix"].get(cell, 0) + 1
+        nla_idx = sorted({e["nla"] for e in info["equations"] if e["type"] == "nla"})
+        if len(nla_idx) >= 2:
+            hist["nla_multi_system_models"] += 1
+        if nla_idx and nla_idx != list(range(len(nla_idx))):
+            hist["nla_index_gap_models"] += 1
+        if fam == "nla_elimination":
+            key = "%s:%s" % (m["meta"]["kind"], ",".join(str(i) for i in nla_idx) or "-")
+            hist["nla_elimination_indices"][key] = hist["nla_elimination_indices"].get(key, 0) + 1
         hid = hashlib.sha256((m["xml"] + "|" + ",".join(m.get("externals") or [])).encode()).hexdigest()
         distinct.add(hid)
         if need or n_entries >= 2:
@@ -1020,6 +1061,11 @@ def run(ctx):
         else:
             cleanup(r)
     hist["violations"] = nviol
+    wanted = ["%s/%s/%s" % (k, f, c) for k, cs in M.BUFFER_KINDS.items() for f in ("name", "units", "component") for c in cs]
+    hist["buffer_matrix_cells_wanted"] = len(wanted)
+    hist["buffer_matrix_cells_missing"] = [w for w in wanted if w not in hist["buffer_matrix"]]
+    if hist["buffer_matrix_cells_missing"]:
+        ctx.notes.append("buffer matrix: no model with the strictly longest string on %s" % ", ".join(hist["buffer_matrix_cells_missing"][:8]))
 
     # ---------------- invalid analyser models and the generator's own guards
     inv = M.invalid_models()
@@ -1076,6 +1122,8 @@ def run(ctx):
 
     ctx.cov["evaluations"] = evaluations
     ctx.cov["distinct_nontrivial"] = len(nontrivial)
+    ctx.cov["buffer_matrix"] = {"cells (model type / field / class carrying the strictly longest string)": hist["buffer_matrix"],
+                                "missing": hist["buffer_matrix_cells_missing"]}
     ctx.cov["rule"] = ("one evaluation = one (valid model, profile) pair put through the structural parse, the string-exact comparison with the "
                        "extracted model, the strict compile + table read-out (C) or the module load + calls (Python); or one code string of an "
                        "invalid / guard case.  non-trivial = at least one helper needed or at least two info entries; distinct by model text + externals.")
